@@ -698,45 +698,112 @@ theorem fixedZone_kinds (n : Option Token) (k : Int) : ErrIn OnlyOE (fixedZone n
   · exact errIn_ok _
   · intro e h; injection h with h; exact h.symm
 
-theorem buildTzinfo_kinds (tzi : TzInfos) (h : tzi.NoBad) (n : Option Token) (off : Option Int) :
-    ErrIn OnlyOE (buildTzinfo tzi n off) := by
-  unfold buildTzinfo
-  simp only [bind, Except.bind, pure, Except.pure]
-  split
-  · exact errIn_ok _
-  · exact errIn_ok _
-  · exact errIn_ok _
-  · exact fixedZone_kinds _ _
-  · rename_i hbad
-    exfalso
-    cases tzi with
-    | absent => simp at hbad
-    | mapping es =>
-      simp only at hbad
-      cases hl : lookupKey es n with
-      | none => simp [hl] at hbad
-      | some d =>
-        simp only [hl, Option.getD_some] at hbad
-        obtain ⟨p, hp, hv⟩ := lookupKey_mem _ _ _ hl
-        exact h p hp (hv.trans hbad)
-    | callable es d =>
-      simp only at hbad
-      cases hl : lookupKey es n with
-      | some d' =>
-        simp only [hl] at hbad
-        obtain ⟨p, hp, hv⟩ := lookupKey_mem _ _ _ hl
-        exact h.1 p hp (hv.trans hbad)
-      | none =>
-        simp only [hl] at hbad
-        cases d with
-        | data d' => simp only at hbad; exact h.2 (by rw [hbad])
-        | echoOffset => cases off <;> simp at hbad
+/-- **"TZ-string values are valid"**: every TZ-string value of `tzinfos` (an entry, or the callable's answer for other
+    names) is one `tz.tzstr` accepts (C08's model `TzStr.tzstr` returns a zone for it).  A malformed one makes
+    `tz.tzstr(tzdata)` raise a plain `ValueError` inside `_build_tzaware`, which `parse()` does not wrap
+    (known finding D-C14-tzinfos-bad-tzstring). -/
+def TzInfos.StringsValid : TzInfos → Prop
+  | .absent => True
+  | .mapping es => ∀ p ∈ es, ∀ s, p.2 = TzData.str s → tzstrCtor s = .ok ()
+  | .callable es d => (∀ p ∈ es, ∀ s, p.2 = TzData.str s → tzstrCtor s = .ok ()) ∧
+      ∀ s, d = .data (.str s) → tzstrCtor s = .ok ()
 
-theorem buildTzaware_kinds (tznames : List Token) (tzi : TzInfos) (h : tzi.NoBad) (res : Res) :
+/-- the value `_build_tzinfo` looks at -/
+def selectData (tzi : TzInfos) (tzname : Option Token) (tzoffset : Option Int) : TzData :=
+  match tzi with
+  | .callable entries dflt =>
+    match lookupKey entries tzname with
+    | some d => d
+    | none => match dflt with
+      | .data d => d
+      | .echoOffset => match tzoffset with | some n => .int n | none => .noneVal
+  | .mapping entries => (lookupKey entries tzname).getD .noneVal
+  | .absent => .noneVal
+
+theorem selectData_not_bad (tzi : TzInfos) (h : tzi.NoBad) (n : Option Token) (off : Option Int) :
+    selectData tzi n off ≠ .bad := by
+  intro hbad
+  unfold selectData at hbad
+  cases tzi with
+  | absent => simp at hbad
+  | mapping es =>
+    simp only at hbad
+    cases hl : lookupKey es n with
+    | none => simp [hl] at hbad
+    | some d =>
+      simp only [hl, Option.getD_some] at hbad
+      obtain ⟨p, hp, hv⟩ := lookupKey_mem _ _ _ hl
+      exact h p hp (hv.trans hbad)
+  | callable es d =>
+    simp only at hbad
+    cases hl : lookupKey es n with
+    | some d' =>
+      simp only [hl] at hbad
+      obtain ⟨p, hp, hv⟩ := lookupKey_mem _ _ _ hl
+      exact h.1 p hp (hv.trans hbad)
+    | none =>
+      simp only [hl] at hbad
+      cases d with
+      | data d' => simp only at hbad; exact h.2 (by rw [hbad])
+      | echoOffset => cases off <;> simp at hbad
+
+theorem selectData_str_ok (tzi : TzInfos) (h : tzi.StringsValid) (n : Option Token) (off : Option Int) (s : Token)
+    (hs : selectData tzi n off = .str s) : tzstrCtor s = .ok () := by
+  unfold selectData at hs
+  cases tzi with
+  | absent => simp at hs
+  | mapping es =>
+    simp only at hs
+    cases hl : lookupKey es n with
+    | none => simp [hl] at hs
+    | some d =>
+      simp only [hl, Option.getD_some] at hs
+      obtain ⟨p, hp, hv⟩ := lookupKey_mem _ _ _ hl
+      exact h p hp s (hv.trans hs)
+  | callable es d =>
+    simp only at hs
+    cases hl : lookupKey es n with
+    | some d' =>
+      simp only [hl] at hs
+      obtain ⟨p, hp, hv⟩ := lookupKey_mem _ _ _ hl
+      exact h.1 p hp s (hv.trans hs)
+    | none =>
+      simp only [hl] at hs
+      cases d with
+      | data d' => simp only at hs; exact h.2 s (by rw [hs])
+      | echoOffset => cases off <;> simp at hs
+
+theorem buildTzinfo_eq (tzi : TzInfos) (n : Option Token) (off : Option Int) :
+    buildTzinfo tzi n off =
+      (match selectData tzi n off with
+       | .obj k => pure (.viaTzinfos (.obj k) n)
+       | .noneVal => pure (.viaTzinfos .noneVal n)
+       | .str s => do tzstrCtor s; pure (.viaTzinfos (.str s) n)
+       | .int k => fixedZone n k
+       | .bad => throw .TypeError) := by
+  unfold buildTzinfo selectData
+  rfl
+
+theorem buildTzinfo_kinds (tzi : TzInfos) (h : tzi.NoBad) (hs : tzi.StringsValid) (n : Option Token) (off : Option Int) :
+    ErrIn OnlyOE (buildTzinfo tzi n off) := by
+  rw [buildTzinfo_eq]
+  have hb := selectData_not_bad tzi h n off
+  have hv := selectData_str_ok tzi hs n off
+  cases hd : selectData tzi n off with
+  | obj k => exact errIn_ok _
+  | noneVal => exact errIn_ok _
+  | str s =>
+    have := hv s hd
+    simp only [this, bind, Except.bind, pure, Except.pure]
+    exact errIn_ok _
+  | int k => exact fixedZone_kinds _ _
+  | bad => exact absurd hd hb
+
+theorem buildTzaware_kinds (tznames : List Token) (tzi : TzInfos) (h : tzi.NoBad) (hs : tzi.StringsValid) (res : Res) :
     ErrIn OnlyOE (buildTzaware tznames tzi res) := by
   unfold buildTzaware
   split
-  · exact buildTzinfo_kinds tzi h _ _
+  · exact buildTzinfo_kinds tzi h hs _ _
   · split
     · exact errIn_ok _
     · split
